@@ -42,7 +42,7 @@ func SelfTest(verifDir, what string, seed uint64) (int, error) {
 		if what != "pool" {
 			targets = append(targets, target{"sign", "C09", "asm", bin, nil, nil}, target{"sign", "C14", "purego", binP, nil, nil}, target{"signenum", "C09", "asm", bin, nil, nil})
 			if sb, _ := e.buildStall(); sb != "" {
-				targets = append(targets, target{"stall", "C09", simStall.Name, sb, nil, nil}, target{"stall", "C14", simStall.Name, sb, nil, nil}, target{"stall", "C18", simStall.Name, sb, nil, nil})
+				targets = append(targets, target{"stall", "C09", simStall.Name, sb, nil, nil}, target{"stall", "C14", simStall.Name, sb, nil, nil}, target{"stall", "C18", simStall.Name, sb, nil, nil}, target{"stall", "C20", simStall.Name, sb, nil, nil})
 			}
 		}
 		if what != "sign" {
